@@ -236,7 +236,7 @@ pub fn run(cfg: &Cfg, rep: &mut Report) {
         check(&mut b, r, &|| crate::util::replay_ref(cfg, "shapes", idx), idx as u32);
         r.nontrivial(format!("{:x}", idx));
     });
-    let n = cfg.n(60_000, 6_000_000);
+    let n = cfg.n(60_000, 40_000_000);
     run_stage(cfg, rep, "random", n, |idx, rng, r| {
         let shape = rng.u32() & 0x1fff;
         let mut b = build(rng, shape, 6);
